@@ -85,7 +85,10 @@ class OverBudget(BaseException):
         self.where = where
 
 
+from vt.harness import c01_gen  # noqa: E402  (pure Python: the syntactic nesting measure)
+
 _seen_len = [0]
+_seen_nest = [0]
 _t0 = [0.0]
 _nraw = [0]
 _scale = [1.0]
@@ -134,6 +137,10 @@ def _recording_parse_txt(raw, **kw):
     # outermost call only (tag extensions re-enter compat.parse_txt)
     if _seen_len[0] < 0:
         _seen_len[0] = len(raw)
+        try:
+            _seen_nest[0] = c01_gen.nesting(raw)      # nesting of the text after template expansion
+        except RecursionError:
+            _seen_nest[0] = 10 ** 6
     return _orig_parse_txt(raw, **kw)
 
 
@@ -166,6 +173,7 @@ def run_one(raw, lang, db, scale=1.0):
     the CPU budget (the run is aborted as soon as the budget is exceeded)."""
     wikidb = None if db is None else UniverseDB(db, lang)
     _seen_len[0] = -1
+    _seen_nest[0] = 0
     _nraw[0] = len(raw)
     _scale[0] = scale
     _t0[0] = t0 = time.process_time()
@@ -187,10 +195,16 @@ def run_one(raw, lang, db, scale=1.0):
     res["cpu"] = round(time.process_time() - t0, 5)
     res["n"] = len(raw)
     res["nexp"] = max(_seen_len[0], 0)
+    res["nest"] = max(_seen_nest[0], c01_gen.nesting(raw))
     return res
 
 
 def fingerprint(res):
+    if res["exc"] == "RecursionError" and res.get("nest", 0) > c01_gen.MAXDEPTH:
+        # the property excludes markup nested deeper than 40 (it exhausts the interpreter stack by construction); templates can
+        # build such nesting out of a shallow raw text (e.g. "*#:;{{nosuch}}" repeated: the empty expansions glue the prefixes)
+        res["excluded"] = "nesting %d > %d after template expansion" % (res["nest"], c01_gen.MAXDEPTH)
+        return None
     if res["exc"] == "OverBudget":
         return "slow@%s" % res["frame"]
     if res["exc"]:
